@@ -50,6 +50,21 @@ def name_of(d, path):
     return (key_under or name).upper()
 
 
+def location_of(d, path):
+    """the failing location a message stands for: (path of the enclosing object, keyword or None)"""
+    cur = d
+    obj_path = ()
+    key = None
+    for i, p in enumerate(path):
+        cur = cur[p]
+        if isinstance(cur, dict):
+            obj_path = tuple(path[: i + 1])
+            key = None
+        elif key is None and isinstance(p, str):
+            key = p
+    return (obj_path, key)
+
+
 def expected_names(d, root_type, version=None):
     """(set of names, sorted error list) or None when the two oracles disagree"""
     j = SE.lower_json(D.plain(d))
@@ -76,6 +91,13 @@ def judge(d, root_type, version=None):
     if exp is None:
         return "oracle_disagreement", None
     names, errs = exp
+    j = SE.lower_json(D.plain(d))
+    need = {}
+    for loc in {(p_, name_of(j, p_)) for p_, _ in errs}:
+        need[loc[1]] = need.get(loc[1], 0) + 0   # placeholder, counted below per distinct location
+    locs = {}
+    for p_, _ in errs:
+        locs.setdefault(name_of(j, p_), set()).add(location_of(j, p_))
     snap = D.typed(d)
     try:
         msgs = impl.validate(d, schema_name=root_type, version=version)
@@ -88,6 +110,14 @@ def judge(d, root_type, version=None):
         return "names", "messages name %s, schema verdict names %s (errors %s)" % (sorted(got), sorted(names), errs[:4])
     if (not msgs) != (not errs):
         return "verdict", "messages=%d schema errors=%d" % (len(msgs), len(errs))
+    # a message for EVERY failing keyword / object: at least one message per distinct failing location
+    counts = {}
+    for m in msgs:
+        n = m["message"][len("ERROR: Invalid value in "):]
+        counts[n] = counts.get(n, 0) + 1
+    for n, ls in locs.items():
+        if counts.get(n, 0) < len(ls):
+            return "missing_message", "%d message(s) name %s but %d distinct locations fail: %s" % (counts.get(n, 0), n, len(ls), sorted(ls, key=repr)[:4])
     return None, None
 
 
@@ -205,6 +235,16 @@ def faults_for(otype, full=True):
                 out.append(("list_item_float", s.key, [10.5] + base[1:]))
         if kinds == {"boolean"}:
             out.append(("wrong_type", s.key, "abc"))
+    for s in V.slots(otype):
+        if s.kind in ("points", "pattern"):
+            out.append(("pair_item_type", s.key, [[1, 2], ["x", 3]]))
+            out.append(("pair_not_a_list", s.key, [[1, 2], 5]))
+            out.append(("pairs_scalar", s.key, "abc"))
+        if s.kind == "projection":
+            out.append(("projection_item_type", s.key, ["init=epsg:4326", 5]))
+            out.append(("projection_empty", s.key, []))
+        if s.kind == "kv":
+            out.append(("kv_not_object", s.key, "abc"))
     out.append(("unknown_keyword", "zzunknown", 1))
     for r in V.required(otype):
         out.append(("missing_required", r, None))
